@@ -176,8 +176,12 @@ var provTable = map[string][]string{
 }
 
 // ruleSignatures checks every analysed compiler function against its class signature.
-func ruleSignatures(c *Ctx, r *Report, rule string) *emitModel {
-	r.rule(rule, 33, "stack-effect signature of every compiler function on every no-diagnostic path: prefix rules and parsePrecedence push exactly one value and never reach below their entry depth; infix rules consume at most one and are neutral; statements keep depth minus local count; no instruction, jump, scope or block is left open")
+func ruleSignatures(c *Ctx, r *Report, rule string, only func(key string) bool) *emitModel {
+	min := 33
+	if only != nil {
+		min = 5
+	}
+	r.rule(rule, min, "stack-effect signature of every compiler function on every no-diagnostic path: prefix rules and parsePrecedence push exactly one value and never reach below their entry depth; infix rules consume at most one and are neutral; statements keep depth minus local count; no instruction, jump, scope or block is left open")
 	m, err := c.emitModel()
 	if err != nil {
 		r.bad(rule, "model", err.Error(), "")
@@ -187,6 +191,9 @@ func ruleSignatures(c *Ctx, r *Report, rule string) *emitModel {
 		r.bad(rule, "anchor/"+miss, "compiler primitive not found under this name (the interpretation cannot assign it its effect)", "")
 	}
 	for _, key := range m.order {
+		if only != nil && !only(key) {
+			continue
+		}
 		e := m.Entries[key]
 		r.fn(e.Fn)
 		pos := ""
@@ -462,7 +469,7 @@ func ruleProgOwners(c *Ctx, r *Report, rule string) {
 
 func checkC10(c *Ctx, r *Report) {
 	ruleVMEffect(c, r, "vm-effect", false)
-	m := ruleSignatures(c, r, "signature")
+	m := ruleSignatures(c, r, "signature", nil)
 	ruleProvenance(c, r, "provenance", m)
 	ruleHelpers(c, r, "helpers")
 	checkJumpArith(c, r, "jump-arith")
